@@ -458,6 +458,16 @@ func (r *rewriter) selectStmt(s *ast.SelectStmt, lbl *ast.LabeledStmt) ast.Stmt 
 	for _, p := range patches {
 		p()
 	}
+	// a clause reached by blocking (nothing was ready when Choose polled) was
+	// woken by the Go runtime, concurrently with whoever made it ready: park
+	// first, so that the scheduler orders the two continuations
+	for _, c := range s.Body.List {
+		if cc := c.(*ast.CommClause); cc.Comm != nil {
+			woke := &ast.ExprStmt{X: call(sim("Woke"), id(sname), strlit(r.site(s.Pos())))}
+			r.done[woke] = true
+			cc.Body = append([]ast.Stmt{woke}, cc.Body...)
+		}
+	}
 	args := append([]ast.Expr{strlit(r.site(s.Pos()))}, cases...)
 	hoist = append(hoist, define(sname, call(sim("Choose"), args...)))
 	var inner ast.Stmt = s
